@@ -21,8 +21,12 @@ CLAIMED={
  "C02":("exploration","Seeded search over block histories, eon states, restarts and faults through the real per-block processing; safety oracle on the trigger channel and on published share messages.","§3 C02"),
  "C19":("exploration","Seeded search over queues, slot triggers, restarts and message interleavings across 2-3 real Gnosis keyper stacks; identity selection vs reference, pointer arithmetic at quiescence.","§3 C19"),
  "C20":("exploration","The real eon-public-key polling service on the fake clock against a generator committing 0-4 keys per tick, both publication modes, refusals, statement errors and restarts.","§3 C20"),
+ "C07":("exploration","Seeded search over Byzantine strategies, block contents and round-trip interleavings of a whole DKG run by the real keyper main loops; agreement / threshold-decryption oracle.","§3 C07"),
+ "C08":("fault_enumeration","Crash points (database round trips, commits with lost reply, ambiguous broadcasts) of a recorded crash-free DKG run of the real main loop are executed as twins: sampled in the quick tier, all of them in the thorough tier.","§3 C08"),
 }
 NOTES={
+ "C07":"consensus is a stub (one app instance, final blocks); harness plays the chain observer",
+ "C08":"restart delay <= 2 s, phase length >= 8 blocks; main-loop exit = process exit; pgsim keeps only committed state",
  "C20":"keys are committed by the generator the way finalizeDKG commits them; pgsim fidelity",
  "C02":"safety only (as stated); keyper sets have increasing activation blocks; simeth/pgsim fidelity",
  "C19":"beacon API stubbed (proposer always registered); sequencer contract enforces minimum gas",
